@@ -260,7 +260,9 @@ Definition groups_ok (names : list (N * str)) (cs : list (option str)) (g : opti
 (* THE VALIDATOR.  start = the position the search was started from (lastIndex), ncap = number
    of capture groups of the pattern, names = its named groups. *)
 Definition match_wf (u : bool) (ncap : N) (names : list (N * str)) (s : str) (start : Z) (m : mres) : bool :=
-  (0 <=? start) && (start <=? ms m) && (ms m <=? me m) && (me m <=? slen s) &&
+  (0 <=? start) && (0 <=? ms m) &&
+  ((start <=? ms m) || (u && negb (is_boundary s start) && (ms m =? start - 1))) &&   (* under u a start inside a pair backs up to the pair *)
+  (ms m <=? me m) && (me m <=? slen s) &&
   (negb u || (is_boundary s (ms m) && is_boundary s (me m))) &&
   (length (mcaps m) =? S (N.to_nat ncap))%nat &&
   ostr_eqb (nth_cap (mcaps m) 0) (Some (slice s (ms m) (me m))) &&
